@@ -53,7 +53,7 @@ def _coords(doc):
     return pos
 
 
-def _check_tree(doc, rows, model, expect_class=None):
+def _check_tree(doc, rows, model, expect_class=None, text_checked=None):
     st = doc.tree.stages
     check(len(st) - 1 == len(rows), lambda: f'{len(st) - 1} stages for {len(rows)} non-empty lines')
     pos = _coords(doc)
@@ -62,7 +62,8 @@ def _check_tree(doc, rows, model, expect_class=None):
         check(len(cells) == len(stage), lambda: f'line {r}: {len(stage)} nodes for {len(cells)} cells')
         for c, n in zip(cells, stage):
             check(n.stage == r + 1, lambda: f'node stage {n.stage} != line {r + 1}')
-            check(n.token.encoding == c.text, lambda: f'line {r} col {c.col}: token text {n.token.encoding!r} != cell {c.text!r}')
+            if text_checked is None or text_checked(c.text):
+                check(n.token.encoding == c.text, lambda: f'line {r} col {c.col}: token text {n.token.encoding!r} != cell {c.text!r}')
             if c.parent is None:
                 check(n.parent is doc.tree.root, lambda: f'line {r} col {c.col}: parent is not the root')
             else:
@@ -116,6 +117,61 @@ def _a_body(i, blank=0):
     # every cell exactly once in the token listing
     listed = sorted(t.encoding for t in doc.get_all_tokens())
     check(listed == sorted(c for r in rows for c in r), 'get_all_tokens() does not list every cell exactly once')
+    return True
+
+
+# ------------------------------------------------------------------ C02.e long texts: cells the **kern parser rejects, invisible barlines
+# cells the **kern grammar has no token for (a cell that BEGINS with a token and continues with other characters is C12's recorded
+# finding about the EOF-less start rule and is left out here)
+BAD_CELLS = ('"zz"', ',4c', '4 c', '\u00f1', '4zz', "it's", '"', ',', 'x"y', ' 4c', '??', '4h')
+LONG_N = (40, 150, 400)
+
+
+def ob_e(n: int, bad: int, hid: int) -> bool:
+    assume(0 <= n < len(LONG_N) and 0 <= bad < 3 and 0 <= hid < 2)
+    return _e_body(choose(n, len(LONG_N)), choose(bad, 3), choose(hid, 2))
+
+
+@native
+def _e_body(ni, bad, hid):
+    """Hundreds of lines; none, every third or EVERY **kern data cell is text the **kern parser rejects (each is still a cell: one
+    node, in place); every fifth line an invisible barline; one split / join pair in the middle.  One stage per line, one node per
+    cell, parents by the model, every cell listed once by get_all_tokens() -- however many cells were rejected."""
+    n = LONG_N[ni]
+    every = (0, 3, 1)[bad]
+    heads = ['**kern', '**kern', '**text']
+    rows = [list(heads), ['*clefG2', '*clefF4', '*']]
+    width = 3
+    for i in range(n):
+        if i == n // 2:
+            rows.append(['*^', '*', '*'])
+            width = 4
+        if i == n // 2 + 7:
+            rows.append(['*v', '*v', '*', '*'])
+            width = 3
+        extra = ['%d%s' % ((4, 8, 16)[i % 3], 'gab'[i % 3] * 2)] if width == 4 else []
+        if hid and i % 5 == 4:
+            rows.append(['=%d-' % i] * width)
+        elif i % 16 == 7:
+            rows.append(['=%d' % i] * width)
+        else:
+            cells = ['%d%s' % ((4, 8, 2)[i % 3], 'cdefgab'[i % 7]), '%d%s' % ((2, 4, 8)[i % 3], 'CDEFGAB'[i % 7])]
+            if every and i % every == 0:
+                cells = [BAD_CELLS[i % len(BAD_CELLS)], BAD_CELLS[(i + 5) % len(BAD_CELLS)]]
+            rows.append([cells[0]] + extra + [cells[1], 'w%d' % i])
+    rows.append(['*-'] * 3)
+    text = sp.to_text(rows)
+    model = sp.analyse(rows)
+    doc, errs = kp.loads(text)
+    n_bad = sum(1 for r in rows for c in r if c in BAD_CELLS)
+    check(len(errs) <= n_bad, lambda: f'{n_bad} cells of the text are not **kern tokens, {len(errs)} errors reported')      # how many are reported is C12's subject
+    _check_tree(doc, rows, model, text_checked=lambda t: not t.startswith('='))
+    toks = doc.get_all_tokens()
+    n_cells = sum(len(r) for r in rows)
+    check(len(toks) == n_cells, lambda: f'get_all_tokens() lists {len(toks)} tokens for {n_cells} cells ({n} data lines, {n_bad} rejected cells, invisible barlines: {bool(hid)})')
+    listed = sorted(t.encoding for t in toks if not t.encoding.startswith('='))
+    check(listed == sorted(c for r in rows for c in r if not c.startswith('=')), 'get_all_tokens() does not list every cell exactly once')
+    check(doc.get_spine_ids() == [0, 1, 2], f'get_spine_ids() = {doc.get_spine_ids()}')
     return True
 
 
@@ -286,6 +342,9 @@ OBLIGATIONS = [
        witnesses=[{'layout': 0, 'blank': 0}, {'layout': 50, 'blank': 3}], min_confirmed=300, enumerated='layout selector, blank-line plan (4)',
        bounds={'quick': '8 header sets (1-3 spines incl. an unknown type); operator rows: 3 (1 spine), 2 (2 spines: kern+text, kern+kern; 3 spines kern+kern+harm), 1 otherwise; <= 4 live columns',
                'thorough': 'operator rows: 4 (1 spine), 3 (2 spines), 2 (3 spines)'}, describe=_desc_a),
+    Ob(id='C02.e', fn=ob_e, title='long texts (40 / 150 / 400 lines) in which none, every third or every **kern cell is rejected by the parser, with invisible barlines: stages, nodes, parents, token listing',
+       budget_s={'quick': 150, 'thorough': 600}, native_body=True, witnesses=[{'n': 1, 'bad': 2, 'hid': 1}], min_confirmed=18,
+       enumerated='length (3), share of rejected cells (3), invisible barlines (2)', bounds={'quick': '3 x 3 x 2 texts, up to 400 lines / 690 rejected cells', 'thorough': 'same'}),
     Ob(id='C02.b', fn=ob_b, title='the line reader takes quotes, commas, spaces, backslashes and non-ASCII literally',
        shard_of=lambda sel, col: sel, shards={'quick': 8, 'thorough': 16}, budget_s={'quick': 120, 'thorough': 900},
        witnesses=[{'sel': 0, 'col': 1}], min_confirmed=300, enumerated='cell string selector (realised before csv.reader: the solver cannot see inside csv)',
